@@ -113,6 +113,9 @@ def require(ctx, tier):
             raise HarnessError(f"C02 generator never produced class {lab!r}")
 
 
+# thorough tier: libFuzzer (atheris) also drives this strategy with coverage feedback from d42
+COVERAGE_GUIDED = {"runs": 60000, "seconds": 120}
+
 MANIFEST = {
     "text": "Differential search against an independent reference semantics: tens of thousands of "
             "(schema, value) pairs centred on the accept/reject boundary; any pair on which d42's "
